@@ -32,6 +32,7 @@ func Generate(r *lib.Rng, tier string) *Case {
 	}
 	g.c.NoID = r.Chance(1, 25)
 	g.lists()
+	g.c.Twice = r.Chance(1, 4)
 	return g.c
 }
 
